@@ -210,6 +210,37 @@ def r4_stationary(idx, r):
     okg = guard is not None and guard.lineno < loop.lineno and "[1]" in norm(guard.test)
     r.require(okg, "index-lists-compared-first", f, node=guard, msg="unequal stationary-block positions must be refused before anything is removed")
     r.require(srcs == [p1, p2], "lists-from-both-assemblies", f, node=loop.iter, msg=f"the paired lists must come from the two assemblies: {srcs}")
+    # 'with or without blocks designated to stay in place': with an EMPTY list of stationary flags no block is stationary.
+    # The selecting filter is evaluated for the empty list: any(... for x in []) is False; X.hasFlags([]) is whatever
+    # ArmiObject.hasFlags returns for a falsy spec (read off its first test).
+    hf = idx.method("armi.reactor.composites.ArmiObject", "hasFlags")
+    empty_val = None
+    if hf is not None:
+        first = next((n for n in hf.node.body if isinstance(n, ast.If)), None)
+        spec = hf.params()[1]
+        if first is not None and norm(first.test) == f"not {spec}" and first.body and isinstance(first.body[0], ast.Return):
+            rv = norm(first.body[0].value)
+            dflt = hf.node.args.defaults[-1].value if hf.node.args.defaults and isinstance(hf.node.args.defaults[-1], ast.Constant) else None
+            if rv == "not exact" and dflt is False:
+                empty_val = True
+            elif rv in ("True", "False"):
+                empty_val = rv == "True"
+    flag_lists = {s_.attr for s_ in iter_stores(f.node) if isinstance(s_.node, ast.Name) and s_.value is not None and "stationaryBlockFlags" in norm(s_.value)}
+    for s_ in iter_stores(f.node):
+        if not (isinstance(s_.node, ast.Name) and s_.attr in lists and isinstance(s_.value, ast.ListComp)):
+            continue
+        for cond in s_.value.generators[0].ifs:
+            val = None
+            if isinstance(cond, ast.Call) and dotted(cond.func) == "any" and cond.args and isinstance(cond.args[0], ast.GeneratorExp) and norm(cond.args[0].generators[0].iter) in flag_lists:
+                val = False
+            elif isinstance(cond, ast.Call) and call_attr(cond) == "hasFlags" and cond.args and norm(cond.args[0]) in flag_lists and len(cond.args) + len(cond.keywords) == 1:
+                val = empty_val
+            if val is None:
+                r.undecided(f"empty-flag-list:{s_.attr}", f, f"filter `{norm(cond)[:60]}` not evaluated for an empty flag list", node=cond)
+            else:
+                r.require(val is False, f"empty-flag-list:{s_.attr}", f, node=cond,
+                          msg=f"with no stationary flags configured `{norm(cond)[:60]}` is true for EVERY block (hasFlags of an empty spec matches everything): "
+                              "a swap then exchanges all blocks and only the empty assembly shells move")
 
 
 def r5_discharge(idx, r):
@@ -260,6 +291,51 @@ def r6_add_checks_first(idx, r):
             r.require(n.lineno < reg.lineno, key, add, node=n, msg="Core.add registers the assembly as a child before this refusal: after the error the core has a child that no lookup table lists")
 
 
+def r8_chain_direction(idx, r):
+    """doRepeatShuffle replays a recorded pattern with two sibling loops of pairwise swaps: one for chains with charge
+    and discharge, one for closed loops. Both must move every assembly the same way along its chain. The two swap
+    sequences are simulated exactly (as permutations of locations) for chain lengths 2..6 and compared."""
+    from ..minieval import MiniEval
+
+    f = idx.method(FH, "doRepeatShuffle")
+    if f is None:
+        raise AnchorMissing("FuelHandler.doRepeatShuffle")
+    loops = []
+    for n in walk_local(f.node):
+        if isinstance(n, ast.For) and isinstance(n.iter, ast.Call) and dotted(n.iter.func) == "range" and len(n.body) == 1 and isinstance(n.body[0], ast.Expr) \
+                and isinstance(n.body[0].value, ast.Call) and call_attr(n.body[0].value) == "swapAssemblies":
+            loops.append(n)
+    if len(loops) != 2:
+        raise AnalysisError(f"doRepeatShuffle: {len(loops)} swap loops found, expected the load-chain and the loop-chain loop")
+
+    def simulate(loop, n):
+        ev = MiniEval()
+        c = loop.body[0].value
+        lst = c.args[0].value.id if isinstance(c.args[0], ast.Subscript) and isinstance(c.args[0].value, ast.Name) else None
+        if lst is None or not all(isinstance(a, ast.Subscript) and isinstance(a.value, ast.Name) and a.value.id == lst for a in c.args[:2]):
+            raise AnalysisError("doRepeatShuffle: swap arguments are not elements of one list")
+        env = {lst: tuple(range(n))}
+        rargs = [ev._ev(a, env) for a in loop.iter.args]
+        where = list(range(n))  # where[k] = location index of assembly k
+        for i in range(*rargs):
+            env[loop.target.id] = i
+            a, b = (ev._ev(x.slice, env) for x in c.args[:2])
+            if not (-n <= a < n and -n <= b < n):
+                raise AnalysisError(f"doRepeatShuffle: index {a} or {b} out of range for a chain of {n}")
+            a, b = a % n, b % n
+            where[a], where[b] = where[b], where[a]
+        return where
+
+    bad = None
+    for n in range(2, 7):
+        w0, w1 = simulate(loops[0], n), simulate(loops[1], n)
+        if w0 != w1 and bad is None:
+            bad = (n, w0, w1)
+    r.require(bad is None, "load-chain=loop-chain", f, node=loops[1],
+              msg=(f"for a chain of {bad[0]} the charge/discharge loop sends assembly k to location {bad[1]} but the closed-loop loop sends it to {bad[2]}: "
+                   "closed rotations are replayed in the opposite direction of the recorded pattern") if bad else "")
+
+
 def run(idx, chk):
     chk.explanation = (
         "C14: who may write childrenByLocator/assembliesByName/blocksByName; Core.add/removeAssembly touching every table exactly once on "
@@ -276,3 +352,5 @@ def run(idx, chk):
                  necessary="stationary blocks keep their core position and exchange assemblies")
     chk.run_rule("R14.5", "dischargeSwap: location captured before removal; pool removal only when present; core.add last at the captured location", lambda r: r5_discharge(idx, r), floor=5, necessary="none duplicated or lost")
     chk.run_rule("R14.6", "Core.add performs every refusal test before registering the assembly", lambda r: r6_add_checks_first(idx, r), floor=2, necessary="a refused add must leave the core unchanged")
+    chk.run_rule("R14.8", "repeat shuffle: the two sibling swap loops (load chains, closed loops) realise the same shift along a chain (exact simulation, lengths 2-6)", lambda r: r8_chain_direction(idx, r), floor=1,
+                 necessary="'each assembly sits where the operation put it'")
